@@ -8,6 +8,7 @@ T=$(mktemp -d)
 trap 'rm -rf "$T"' EXIT
 for d in cmd/*/; do
   n=$(basename "$d")
+  case " cudp " in *" $n "*) continue;; esac   # built with a source overlay generated at check time (see tools/props/xudpidle.py)
   go build -tags verif -o "$T/$n" "./cmd/$n" || exit 1
 done
 for n in $(cat ../tools/race_drivers.txt 2>/dev/null); do
